@@ -277,6 +277,18 @@ def fn_single(items):
                              (lambda d=d, kw=kw: pauli(d, **kw)), el)
                 if not kw and N >= 1:      # the qubit number may also be stated for descriptions that do not need it
                     ctx.pauli_is('parse+N/%s/p=%d' % (name, p), 'pauli(%r, N=%d)' % (d, N), (lambda d=d: pauli(d, N=N)), el)
+                # construct -> overwrite the result's arrays -> construct again from the same description object
+                try:
+                    P1 = pauli(d, **kw)
+                    if pkg == 'py':
+                        P1.g[...] = 1 - P1.g
+                    else:
+                        P1.g.copy_(1 - P1.g)
+                except Exception:
+                    P1 = None
+                if P1 is not None:
+                    ctx.pauli_is('parse-again-after-edit/%s/p=%d' % (name, p), 'pauli(%r%s) after the arrays of an earlier result of the same call were overwritten' % (d, ', N=%d' % N if kw else ''),
+                                 (lambda d=d, kw=kw: pauli(d, **kw)), el)
             P0 = B.mk(el)
             # a Pauli object is passed through unchanged
             ctx.count(False)
